@@ -142,8 +142,10 @@ func vC04Dns64History(out *vC04Out, r *rand.Rand, budget int) int {
 		ch := middleware.NewChain([]middleware.Handler{d, env.c, env.stub})
 		ch.Reset(writer, req)
 		env.stub.calls = nil
+		// the server's request context exposes the chain's ResponseMeta; the cache folds its hits into it
+		ctx := middleware.WithResponseMeta(context.Background(), new(middleware.ResponseMeta))
 		t0 := k.now()
-		ch.Next(context.Background())
+		ch.Next(ctx)
 		t1 := k.now()
 		if !writer.Written() {
 			continue
@@ -187,7 +189,7 @@ func vC04Dns64History(out *vC04Out, r *rand.Rand, budget int) int {
 				hasSOA, minimum = true, soa.Minttl
 				negPiece = vC04PieceCoq(k, nil, soa.Hdr.Ttl)
 			} else {
-				negPiece = "(PFresh 0)"
+				negPiece = "(PFresh 600)" // no SOA downstream: RFC 6147 ceiling
 			}
 		} else {
 			m := preNeg.storedMsg()
